@@ -1,0 +1,22 @@
+//go:build verif
+
+// Contracts for govc (see /verif/DESIGN.md). Comment-only file: no executable code.
+
+package transaction
+
+//@ property C11 C37
+// A transaction's timestamp and id are fixed attributes of the (immutable) transaction value.
+//@ smt all (declare-fun tx_ts (Iface) W64)
+//@ smt all (declare-fun tx_id (Iface) BSeq)
+
+//@ func (tx Transaction) Timestamp() (ts)
+//@   iface
+//@   trusted
+//@   pure
+//@   ensures ts == int64(tx_ts(tx))
+
+//@ func (tx Transaction) ID() (id)
+//@   iface
+//@   trusted
+//@   pure
+//@   ensures seq(id) == tx_id(tx)
